@@ -53,12 +53,12 @@ theorem today_case (dayP timeP : Nat → Bool) (t n s : Nat) (hn : n = 86400) (h
   rw [hk] at this; cases this
 
 /-- nothing left today: first allowed second of the first allowed later day -/
-theorem later_case (dayP timeP : Nat → Bool) (t H n s d : Nat) (hn : n = 86400)
+theorem later_case (dayP timeP : Nat → Bool) (t n s d : Nat) (hn : n = 86400)
     (hnt : ∀ r', r' / 86400 = t / 86400 → t < r' → ¬ MatchG dayP timeP r')
-    (hall : leastFrom timeP 0 n = some s) (hday : leastFrom dayP (t / 86400 + 1) H = some d) :
+    (hall : leastFrom timeP 0 n = some s) (d1 : t / 86400 < d) (d3 : dayP d = true)
+    (d4 : ∀ j, t / 86400 < j → j < d → dayP j = false) :
     Earliest (MatchG dayP timeP) t (d * 86400 + s) := by
   obtain ⟨_, a2, a3, a4⟩ := leastFrom_some _ _ _ _ hall
-  obtain ⟨d1, _, d3, d4⟩ := leastFrom_some _ _ _ _ hday
   have e1 : (d * 86400 + s) / 86400 = d := by omega
   have e2 : (d * 86400 + s) % 86400 = s := by omega
   refine ⟨by omega, ⟨by rw [e1]; exact d3, by rw [e2]; exact a3⟩, ?_⟩
@@ -73,68 +73,202 @@ theorem later_case (dayP timeP : Nat → Bool) (t H n s d : Nat) (hn : n = 86400
       have := hm.1
       rw [hk] at this; cases this
 
-/-- "today yields nothing" in the form the later case wants -/
-theorem today_none (dayP timeP : Nat → Bool) (t n : Nat) (hn : n = 86400)
-    (h : (if dayP (t / 86400) = true then leastFrom timeP (t % 86400 + 1) (n - (t % 86400 + 1)) else none) = none) :
+/-- the day search returns the first day that is allowed in all three respects -/
+theorem daySearch_found (ddP monP : Nat → Bool) (yearP : Nat → Nat) (limit H : Nat) :
+    ∀ fuel p D, daySearch ddP monP yearP limit H fuel p = .found D →
+      p ≤ D ∧ (ddP D && monP D) = true ∧ ∀ x, p ≤ x → x < D → (ddP x && monP x) = false := by
+  intro fuel
+  induction fuel with
+  | zero => intro p D h; simp [daySearch] at h
+  | succ fuel ih =>
+    intro p D h
+    unfold daySearch at h
+    cases hd : leastFrom ddP p H with
+    | none => simp [hd] at h
+    | some d =>
+      simp only [hd] at h
+      obtain ⟨l1, _, l3, l4⟩ := leastFrom_some _ _ _ _ hd
+      by_cases hm : monP d = true
+      · simp only [hm, if_true, DayResult.found.injEq] at h
+        subst h
+        exact ⟨l1, by simp [l3, hm], fun x hx1 hx2 => by simp [l4 x hx1 hx2]⟩
+      · simp only [hm] at h
+        cases hl : leastFrom monP (d + 1) 400 with
+        | none => simp [hl] at h
+        | some l =>
+          simp only [hl] at h
+          obtain ⟨m1, _, _, m4⟩ := leastFrom_some _ _ _ _ hl
+          by_cases hy : yearP l > limit
+          · simp [hy] at h
+          · simp only [hy, if_false] at h
+            obtain ⟨r1, r2, r3⟩ := ih l D h
+            refine ⟨by omega, r2, ?_⟩
+            intro x hx1 hx2
+            by_cases c1 : x < d
+            · simp [l4 x hx1 c1]
+            · by_cases c2 : x = d
+              · subst c2; simp at hm; simp [hm]
+              · by_cases c3 : x < l
+                · simp [m4 x (by omega) c3]
+                · exact r3 x (by omega) hx2
+
+/-- … or reports the landing day beyond the year limit, with no allowed day before it -/
+theorem daySearch_beyond (ddP monP : Nat → Bool) (yearP : Nat → Nat) (limit H : Nat) :
+    ∀ fuel p L, daySearch ddP monP yearP limit H fuel p = .beyond L →
+      p ≤ L ∧ yearP L > limit ∧ ∀ x, p ≤ x → x < L → (ddP x && monP x) = false := by
+  intro fuel
+  induction fuel with
+  | zero => intro p L h; simp [daySearch] at h
+  | succ fuel ih =>
+    intro p L h
+    unfold daySearch at h
+    cases hd : leastFrom ddP p H with
+    | none => simp [hd] at h
+    | some d =>
+      simp only [hd] at h
+      obtain ⟨l1, _, l3, l4⟩ := leastFrom_some _ _ _ _ hd
+      by_cases hm : monP d = true
+      · simp [hm] at h
+      · simp only [hm, Bool.false_eq_true, if_false] at h
+        cases hl : leastFrom monP (d + 1) 400 with
+        | none => simp [hl] at h
+        | some l =>
+          simp only [hl] at h
+          obtain ⟨m1, _, _, m4⟩ := leastFrom_some _ _ _ _ hl
+          have skip : ∀ x, p ≤ x → x < l → (ddP x && monP x) = false := by
+            intro x hx1 hx2
+            by_cases c1 : x < d
+            · simp [l4 x hx1 c1]
+            · by_cases c2 : x = d
+              · subst c2; simp at hm; simp [hm]
+              · simp [m4 x (by omega) hx2]
+          by_cases hy : yearP l > limit
+          · simp only [hy, if_true, DayResult.beyond.injEq] at h
+            subst h
+            exact ⟨by omega, hy, skip⟩
+          · simp only [hy, if_false] at h
+            obtain ⟨r1, r2, r3⟩ := ih l L h
+            refine ⟨by omega, r2, ?_⟩
+            intro x hx1 hx2
+            by_cases c3 : x < l
+            · exact skip x hx1 c3
+            · exact r3 x (by omega) hx2
+
+/-- "no allowed second later today" in the form the later case wants -/
+theorem later_none (dayP timeP : Nat → Bool) (t n : Nat) (hn : n = 86400)
+    (h : leastFrom timeP (t % 86400 + 1) (n - (t % 86400 + 1)) = none) :
     ∀ r', r' / 86400 = t / 86400 → t < r' → ¬ MatchG dayP timeP r' := by
   intro r' c1 h1 hm
-  by_cases hd : dayP (t / 86400) = true
-  · rw [if_pos hd] at h
-    have hk := leastFrom_none _ _ _ h (r' % 86400) (by omega) (by omega)
-    have := hm.2
-    rw [hk] at this; cases this
-  · have := hm.1
-    rw [c1] at this; exact hd this
+  have hk := leastFrom_none _ _ _ h (r' % 86400) (by omega) (by omega)
+  have := hm.2
+  rw [hk] at this; cases this
 
-theorem nextG_some (dayP timeP : Nat → Bool) (t H n r : Nat) (hn : n = 86400) (h : nextG dayP timeP t H n = some r) :
-    Earliest (MatchG dayP timeP) t r := by
+theorem nextG_some (ddP monP : Nat → Bool) (yearP : Nat → Nat) (timeP : Nat → Bool) (t H n r : Nat) (hn : n = 86400)
+    (h : nextG ddP monP yearP timeP t H n = some r) :
+    Earliest (MatchG (fun x => ddP x && monP x) timeP) t r := by
   unfold nextG at h
-  cases htoday : (if dayP (t / 86400) = true then leastFrom timeP (t % 86400 + 1) (n - (t % 86400 + 1)) else none) with
-  | some s =>
-    simp only [htoday, Option.some.injEq] at h
-    subst h
-    by_cases hd : dayP (t / 86400) = true
-    · rw [if_pos hd] at htoday; exact today_case dayP timeP t n s hn hd htoday
-    · rw [if_neg hd] at htoday; cases htoday
-  | none =>
-    simp only [htoday] at h
-    cases hall : leastFrom timeP 0 n with
-    | none => simp only [hall] at h; cases h
-    | some s =>
-      cases hday : leastFrom dayP (t / 86400 + 1) H with
-      | none => simp only [hall, hday] at h; cases h
-      | some d =>
-        simp only [hall, hday, Option.some.injEq] at h
+  cases hall : leastFrom timeP 0 n with
+  | none => simp only [hall] at h; cases h
+  | some sFirst =>
+    simp only [hall] at h
+    cases hlater : leastFrom timeP (t % 86400 + 1) (n - (t % 86400 + 1)) with
+    | none =>
+      simp only [hlater, Option.isSome_none, Bool.false_eq_true, if_false, Option.map_none] at h
+      cases hds : daySearch ddP monP yearP (dotG ddP monP yearP timeP t + 4) H 100 (t / 86400 + 1) with
+      | exhausted => simp only [hds] at h; cases h
+      | beyond l => simp only [hds] at h; cases h
+      | found d =>
+        simp only [hds] at h
+        obtain ⟨f1, f2, f3⟩ := daySearch_found _ _ _ _ _ _ _ _ hds
+        have hne : ¬ d = t / 86400 := by omega
+        simp only [hne, if_false, Option.some.injEq] at h
         subst h
-        exact later_case dayP timeP t H n s d hn (today_none dayP timeP t n hn htoday) hall hday
-
-theorem nextG_none (dayP timeP : Nat → Bool) (t H n : Nat) (hn : n = 86400) (h : nextG dayP timeP t H n = none) :
-    ∀ r', t < r' → r' / 86400 ≤ t / 86400 + H → ¬ MatchG dayP timeP r' := by
-  intro r' h1 h2 hm
-  unfold nextG at h
-  cases htoday : (if dayP (t / 86400) = true then leastFrom timeP (t % 86400 + 1) (n - (t % 86400 + 1)) else none) with
-  | some s => simp only [htoday] at h; cases h
-  | none =>
-    simp only [htoday] at h
-    by_cases c1 : r' / 86400 = t / 86400
-    · exact today_none dayP timeP t n hn htoday r' c1 h1 hm
-    · cases hall : leastFrom timeP 0 n with
-      | none =>
-        have hk := leastFrom_none _ _ _ hall (r' % 86400) (by omega) (by omega)
-        have := hm.2
-        rw [hk] at this; cases this
-      | some s =>
-        cases hday : leastFrom dayP (t / 86400 + 1) H with
-        | some d => simp only [hall, hday] at h; cases h
-        | none =>
-          have hk := leastFrom_none _ _ _ hday (r' / 86400) (by omega) (by omega)
+        exact later_case _ timeP t n sFirst d hn (later_none _ timeP t n hn hlater) hall (by omega) f2
+          (fun j hj1 hj2 => f3 j (by omega) hj2)
+    | some s =>
+      simp only [hlater, Option.isSome_some, if_true, Option.map_some] at h
+      cases hds : daySearch ddP monP yearP (dotG ddP monP yearP timeP t + 4) H 100 (t / 86400) with
+      | exhausted => simp only [hds] at h; cases h
+      | beyond l => simp only [hds] at h; cases h
+      | found d =>
+        simp only [hds] at h
+        obtain ⟨f1, f2, f3⟩ := daySearch_found _ _ _ _ _ _ _ _ hds
+        by_cases hde : d = t / 86400
+        · simp only [hde, if_true, Option.some.injEq] at h
+          subst h
+          rw [hde] at f2
+          exact today_case _ timeP t n s hn f2 hlater
+        · simp only [hde, if_false, Option.some.injEq] at h
+          subst h
+          have hday : (ddP (t / 86400) && monP (t / 86400)) = false := f3 _ (Nat.le_refl _) (by omega)
+          refine later_case _ timeP t n sFirst d hn ?_ hall (by omega) f2 (fun j hj1 hj2 => f3 j (by omega) hj2)
+          intro r' c1 _ hm
           have := hm.1
-          rw [hk] at this; cases this
+          rw [c1] at this
+          simp only at this
+          rw [hday] at this; cases this
+
+/-- when the search gave up at the year horizon: no matching instant before the landing day `L`, whose
+calendar year exceeds dot + 4 -/
+theorem dayResultG_beyond (ddP monP : Nat → Bool) (yearP : Nat → Nat) (timeP : Nat → Bool) (t H n L : Nat) (hn : n = 86400)
+    (h : dayResultG ddP monP yearP timeP t H n = .beyond L) :
+    yearP L > dotG ddP monP yearP timeP t + 4 ∧
+    ∀ r', t < r' → r' / 86400 < L → ¬ MatchG (fun x => ddP x && monP x) timeP r' := by
+  unfold dayResultG at h
+  obtain ⟨b1, b2, b3⟩ := daySearch_beyond _ _ _ _ _ _ _ _ h
+  refine ⟨b2, ?_⟩
+  intro r' h1 h2 hm
+  cases hlater : leastFrom timeP (t % 86400 + 1) (n - (t % 86400 + 1)) with
+  | none =>
+    by_cases c1 : r' / 86400 = t / 86400
+    · exact later_none _ timeP t n hn hlater r' c1 h1 hm
+    · simp only [hlater, Option.isSome_none, Bool.false_eq_true, if_false] at b3
+      have := b3 (r' / 86400) (by omega) h2
+      have hm1 := hm.1
+      simp only at hm1
+      rw [this] at hm1; cases hm1
+  | some s =>
+    simp only [hlater, Option.isSome_some, if_true] at b3
+    have := b3 (r' / 86400) (by omega) h2
+    have hm1 := hm.1
+    simp only at hm1
+    rw [this] at hm1; cases hm1
+
+/-- nothing found: the time-of-day set is empty, or the day search did not find a day (year horizon
+hit, or — never observed — a scan bound exhausted) -/
+theorem nextG_none (ddP monP : Nat → Bool) (yearP : Nat → Nat) (timeP : Nat → Bool) (t H n : Nat) (hn : n = 86400)
+    (h : nextG ddP monP yearP timeP t H n = none) :
+    leastFrom timeP 0 n = none ∨ ∀ d, dayResultG ddP monP yearP timeP t H n ≠ .found d := by
+  unfold nextG at h
+  cases hall : leastFrom timeP 0 n with
+  | none => exact Or.inl rfl
+  | some sFirst =>
+    right
+    intro d hd
+    unfold dayResultG at hd
+    simp only [hall] at h
+    cases hlater : leastFrom timeP (t % 86400 + 1) (n - (t % 86400 + 1)) with
+    | none =>
+      simp only [hlater, Option.isSome_none, Bool.false_eq_true, if_false, Option.map_none] at h hd
+      obtain ⟨f1, _, _⟩ := daySearch_found _ _ _ _ _ _ _ _ hd
+      have hne : ¬ d = t / 86400 := by omega
+      simp [hd, hne] at h
+    | some s =>
+      simp only [hlater, Option.isSome_some, if_true, Option.map_some] at h hd
+      simp only [hd] at h
+      by_cases hde : d = t / 86400
+      · simp [hde] at h
+      · simp [hde] at h
 
 theorem nextCron_some (e : Expr) (t H r : Nat) (h : nextCron e t H = some r) :
-    Earliest (CronMatch e) t r := nextG_some (dayOk e) (timeOk e) t H 86400 r rfl h
+    Earliest (CronMatch e) t r := nextG_some (domDowOk e) (monOk e) yearOf (timeOk e) t H 86400 r rfl h
+
+theorem nextCron_beyond (e : Expr) (t H L : Nat) (h : nextCronDay e t H = .beyond L) :
+    yearOf L > cronDot e t + 4 ∧ ∀ r', t < r' → r' / 86400 < L → ¬ CronMatch e r' :=
+  dayResultG_beyond (domDowOk e) (monOk e) yearOf (timeOk e) t H 86400 L rfl h
 
 theorem nextCron_none (e : Expr) (t H : Nat) (h : nextCron e t H = none) :
-    ∀ r', t < r' → r' / 86400 ≤ t / 86400 + H → ¬ CronMatch e r' := nextG_none (dayOk e) (timeOk e) t H 86400 rfl h
+    leastFrom (timeOk e) 0 86400 = none ∨ ∀ d, nextCronDay e t H ≠ .found d :=
+  nextG_none (domDowOk e) (monOk e) yearOf (timeOk e) t H 86400 rfl h
 
 end Tbox.C20.Cron
